@@ -1301,7 +1301,7 @@ class Router:
                         sought_gn_addr, []).append(buffered_request)
                 return
             # Create or fetch LocTE and set ls_pending
-            entry = self.location_table.ensure_entry(sought_gn_addr)
+            entry = self.location_table.ensure_entry(sought_gn_addr, ls_pending=True)
             entry.ls_pending = True
             self._ls_packet_buffers[sought_gn_addr] = (
                 [buffered_request] if buffered_request is not None else []
